@@ -19,7 +19,9 @@ Instances ==
      << << <<2, 2>>, <<2, 3>> >> >>,                          \* 1 molecule, 2 modes
      << << <<2, 2>> >>, << <<2, 2>> >> >>,                    \* dimer, 1 mode each
      << << <<2, 3>> >>, << <<2, 2>>, <<3, 2>> >> >>,          \* dimer, 1 + 2 modes
-     << << <<2, 2>> >>, << >>, << <<2, 2>> >> >> >>            \* trimer, one bare
+     << << <<2, 2>> >>, << >>, << <<2, 2>> >> >>,             \* trimer, one bare
+     << << <<14, 13>> >> >>,                                  \* many levels
+     << << <<10, 9>> >>, << <<9, 10>> >> >> >>                \* many levels, dimer
 
 CONSTANTS MaxMult
 
@@ -83,7 +85,7 @@ ProductOfLevelCounts ==
      LET e == ElOrder[i]  vs == NdIndex(e, 1) IN
      /\ Len(vs) = Prod(e, 1)
      /\ Cardinality(Rng(vs)) = Len(vs)                       \* no duplicates
-     /\ Rng(vs) = {v \in [1 .. NM -> 0 .. 5] :
+     /\ Rng(vs) = {v \in [1 .. NM -> 0 .. 14] :
                      \A k \in 1 .. NM : v[k] < Levels(e, k)}  \* complete
 
 TotalCount ==
